@@ -247,7 +247,10 @@ Fixpoint refw_run (interval : Z) (s : refw) (ops : list xop) : list obs :=
   end.
 
 (* ---------- cache + wheel with the non-perturbing observations ---------- *)
-Inductive xxop := XX (o : xop) | XHeld | XSize.
+Inductive xxop :=
+| XX (o : xop) | XHeld | XSize
+| XTickHold   (* a tick whose expiry callbacks (cache.Del of each fired key) are started but held back *)
+| XRelease.   (* the held callbacks run now *)
 
 (* A non-positive expiry is refused by the wheel (SetTimer returns ErrArgument, which
    SetWithExpire ignores): the value is stored, evicted keys lose their timers, and the key's
@@ -273,20 +276,34 @@ Definition cwx_step (s : cachew) (o : xop) : cachew * obs :=
   | _ => let '(s', r, _) := cw_step s o in (s', r)
   end.
 
-Fixpoint cwx_run (s : cachew) (ops : list xxop) : list obs :=
+(* [pend] = the timers a held tick has fired (removed from the wheel) whose callbacks have not
+   run yet.  timingwheel.go starts the callbacks of a tick on a goroutine of their own AFTER
+   removing the fired timers; when they run they delete whatever the cache holds under the key
+   then, and remove whatever timer the key has then. *)
+Fixpoint cwx_run (s : cachew) (pend : TW.fired) (ops : list xxop) : list obs :=
   match ops with
   | [] => []
-  | XX o :: ops' => let (s', r) := cwx_step s o in r :: cwx_run s' ops'
-  | XHeld :: ops' => OList (map fst (cdata (cwc s))) :: cwx_run s ops'
-  | XSize :: ops' => ONum (alen (cdata (cwc s))) :: cwx_run s ops'
+  | XX o :: ops' => let (s', r) := cwx_step s o in r :: cwx_run s' pend ops'
+  | XHeld :: ops' => OList (map fst (cdata (cwc s))) :: cwx_run s pend ops'
+  | XSize :: ops' => ONum (alen (cdata (cwc s))) :: cwx_run s pend ops'
+  | XTickHold :: ops' =>
+    let (w1, f) := TW.on_tick (cww s) in
+    OUnit :: cwx_run (mkCW (cwc s) w1 (cwmv s)) (pend ++ f) ops'
+  | XRelease :: ops' =>
+    let (c2, w2) := cw_callbacks (cwc s) (cww s) pend in
+    OUnit :: cwx_run (mkCW c2 w2 (cwmv s)) [] ops'
   end.
 
+(* the reference: an entry whose last tick has come IS expired - when the deletion is carried
+   out is the implementation's business, and it concerns that entry only *)
 Fixpoint refwx_run (interval : Z) (s : refw) (ops : list xxop) : list obs :=
   match ops with
   | [] => []
   | XX o :: ops' => let (s', r) := refw_step interval s o in r :: refwx_run interval s' ops'
   | XHeld :: ops' => OList (map fst (sents (rws s))) :: refwx_run interval s ops'
   | XSize :: ops' => ONum (Z.of_nat (length (sents (rws s)))) :: refwx_run interval s ops'
+  | XTickHold :: ops' => let (s', r) := refw_step interval s XTick in r :: refwx_run interval s' ops'
+  | XRelease :: ops' => OUnit :: refwx_run interval s ops'
   end.
 
 (* the property speaks of entries that expire: every expiry of the history is positive *)
@@ -294,7 +311,15 @@ Definition xx_in_scope (o : xxop) : bool :=
   match o with
   | XX (XSet _ _ d) => 0 <? d
   | XX (XTake _ _ d) => 0 <? d
+  | XTickHold | XRelease => false   (* held callbacks: outside cachew_refines_stamp_reference *)
   | _ => true
+  end.
+
+(* ... for prop_ok the held ticks are in scope *)
+Definition xx_judged (o : xxop) : bool :=
+  match o with
+  | XTickHold | XRelease => true
+  | _ => xx_in_scope o
   end.
 
 Fixpoint xsizes_ok (limit : Z) (seen : list obs) : bool :=
@@ -386,7 +411,7 @@ Definition agrees (c : case) : bool :=
   | KSet ops seen => same true (set_run [] ops) seen
   | KCache limit ops seen => same true (cc_run (c_new limit) ops) seen
   | KCacheW limit slots interval mv ops seen =>
-    same true (cwx_run (cw_new limit slots interval mv) ops) seen
+    same true (cwx_run (cw_new limit slots interval mv) [] ops) seen
   | KLinMap ct md pre evs =>
     linearisable_b (sm_step (mkSMC ct md)) true (run_pre (sm_step (mkSMC ct md)) sm_new (expand pre)) evs
   | KLinQueue size pre evs =>
@@ -448,7 +473,7 @@ Definition prop_ok (c : case) : bool :=
     same true (sc_run (s_new limit) ops) seen &&
     (if 0 <? limit then probe_ok limit ops seen && sizes_ok limit ops (filter nonunit seen) else true)
   | KCacheW limit slots interval mv ops seen =>
-    if (1 <=? slots) && (1 <=? interval) && forallb xx_in_scope ops then
+    if (1 <=? slots) && (1 <=? interval) && forallb xx_judged ops then
       same true (refwx_run interval (mkRefW (s_new limit) []) ops) seen &&
       (if 0 <? limit then xsizes_ok limit seen else true)
     else true
@@ -483,7 +508,7 @@ Definition model_obs (c : case) : mobs :=
   | KRing n ops _ => MO (visible false (r_run (r_new (Z.to_nat n)) ops))
   | KSet ops _ => MO (visible true (set_run [] ops))
   | KCache limit ops _ => MO (visible true (cc_run (c_new limit) ops))
-  | KCacheW limit slots interval mv ops _ => MO (visible true (cwx_run (cw_new limit slots interval mv) ops))
+  | KCacheW limit slots interval mv ops _ => MO (visible true (cwx_run (cw_new limit slots interval mv) [] ops))
   | KWindowGate size iv t0 ig pre _ tr adds _ post _ =>
     let w1 := w_final (rw_new (Z.to_nat size) iv t0 ig) pre in
     MW (w_run (rw_new (Z.to_nat size) iv t0 ig) pre ++ [rw_reduce w1 tr] ++ w_run (w_final w1 (adds_ops adds)) post)
